@@ -183,7 +183,20 @@ func (c *Ctx) checkIdentityAVPs(f *ssa.Function, rule, settingsType string) {
 	}{{264, "OriginHost"}, {296, "OriginRealm"}} {
 		key := fmt.Sprintf("%s:%s-from-settings", fname(f), want.fld)
 		found := false
-		for _, ci := range flow.CallInstrs(f) {
+		// the function itself plus package-local helpers it calls unconditionally (helper extraction)
+		fns := []*ssa.Function{f}
+		for _, hc := range flow.CallInstrs(f) {
+			if g := flow.StaticCallee(hc); g != nil && g != f && g.Blocks != nil && pkgOf(g) == pkgOf(f) && onlyNilErrorGuards(hc) {
+				if _, isGo := hc.(*ssa.Go); !isGo {
+					fns = append(fns, g)
+				}
+			}
+		}
+		var cis []ssa.CallInstruction
+		for _, g := range fns {
+			cis = append(cis, flow.CallInstrs(g)...)
+		}
+		for _, ci := range cis {
 			if !flow.IsCallTo(ci, pkgDiam, "Message", "NewAVP") || len(ci.Common().Args) < 5 {
 				continue
 			}
